@@ -16,9 +16,21 @@ def run(ctx):
         edges = [e for e in edges if (e["script"]["delay"] == "none" and not e["script"]["staleErrno"]) or rng.random() < 0.25]
     results = pamfam.run_all(ctx, edges)
     n = pamfam.judge(ctx, results)
+    # several authentications in one process: an OK answer followed by every short / negative / malformed answer
+    import concurrent.futures, os
+    exe = pamfam.build(ctx)
+    okedge = next(e for e in res["edges"] if e["success"] and e["script"]["reply"]["id"] == "OK" and e["script"]["delay"] == "none"
+                  and e["script"]["after"] == "close" and not e["script"]["staleErrno"])
+    seconds = [e for e in res["edges"] if e["script"]["delay"] == "none" and e["script"]["after"] == "close" and not e["script"]["staleErrno"]]
+    seqs = [[okedge, e] for e in seconds] + [[okedge, e, okedge] for e in seconds[::7]]
+    work = os.path.join(ctx.scratch, "pamseq")
+    os.makedirs(work, exist_ok=True)
+    with concurrent.futures.ThreadPoolExecutor(max_workers=32) as ex:
+        sres = list(ex.map(lambda iq: pamfam.run_sequence(exe, work, iq[0], iq[1]), enumerate(seqs)))
+    nseq = pamfam.judge_sequences(ctx, sres)
     cov = ctx.coverage
     cov.update({"states": res["distinct"], "transitions": res["generated"], "traces_validated_against_impl": n,
-                "evaluations": n, "distinct_nontrivial": len({json.dumps(e, sort_keys=True) for e in edges}),
+                "evaluations": n + nseq, "sequences_in_one_process": nseq, "distinct_nontrivial": len({json.dumps(e, sort_keys=True) for e in edges}),
                 "per_config": {"MC_PamClient_code.cfg": {"distinct": res["distinct"], "scripts": len(res["edges"])},
                                "MC_PamClient_bad_staleerrno.cfg": {"status": bad["status"], "expected": "violation of PamTerminates"}},
                 "rule": "every server script of the PamClient model (reply x cut point x delay x close/stall x errno on entry) is played "
